@@ -71,6 +71,18 @@ func NewServer(cur *Snap) *Server {
 		nconn: map[string]int{}, MaxDials: 400, park: make(chan struct{})}
 }
 
+// Accept makes the endpoint at addr accept connections and answer from now on.
+func (s *Server) Accept(addr string) {
+	s.mu.Lock()
+	defer s.mu.Unlock()
+	nb := make(map[string]byte, len(s.Behav)+1)
+	for k, v := range s.Behav {
+		nb[k] = v
+	}
+	nb[addr] = BAnswer
+	s.Behav = nb
+}
+
 func (s *Server) behav(addr string) byte {
 	if b, ok := s.Behav[addr]; ok {
 		return b
